@@ -601,3 +601,107 @@ Qed.
 
 Lemma tinv_run m ops : tinv m (fst (trun m ops)) (snd (trun m ops)).
 Proof. unfold trun. apply tinv_fold. cbn [fst snd]. apply tinv_init. Qed.
+
+(* ---- the C13 statements ---- *)
+Lemma C13_bound : C13_bound_stmt.
+Proof.
+  unfold C13_bound_stmt. intros maxc ops. cbv zeta.
+  pose proof (tinv_run maxc ops) as Hinv.
+  pose proof (ti_perm _ _ _ Hinv) as Hp. rewrite (ti_max _ _ _ Hinv) in Hp.
+  split; [exact Hp|]. split; [lia|]. apply (ti_live_nd _ _ _ Hinv).
+Qed.
+
+(* holds in every state, reachable or not *)
+Lemma poll_immediate i s : 0 < permits s -> fut_listener i (futs s) <> None -> fst (poll_fut i s) = true.
+Proof.
+  intros Hp Hf. unfold poll_fut. destruct (fut_listener i (futs s)) as [lo|]; [|contradiction Hf; reflexivity].
+  destruct (N.ltb_spec 0 (permits s)) as [H|H]; [reflexivity|lia].
+Qed.
+
+Lemma C13_immediate : C13_immediate_stmt.
+Proof. unfold C13_immediate_stmt. intros maxc ops i. cbv zeta. apply poll_immediate. Qed.
+
+Lemma C13_not_stranded : C13_not_stranded_stmt.
+Proof.
+  unfold C13_not_stranded_stmt. intros maxc ops. cbv zeta.
+  exact (ti_ns _ _ _ (tinv_run maxc ops)).
+Qed.
+
+Lemma C13_listeners_owned : C13_listeners_owned_stmt.
+Proof.
+  unfold C13_listeners_owned_stmt. intros maxc ops id st. cbv zeta. intros Hin.
+  apply (ti_owned _ _ _ (tinv_run maxc ops)). unfold ids. apply in_map_iff.
+  exists (id, st). split; [reflexivity|assumption].
+Qed.
+
+(* wake counters: every operation keeps every counter and never decreases it (any state) *)
+Definition wle (w w' : list (N * N)) : Prop :=
+  forall i c, In (i, c) w -> exists c', In (i, c') w' /\ c <= c'.
+
+Lemma wle_refl w : wle w w.
+Proof. intros i c H. exists c. split; [assumption|lia]. Qed.
+
+Lemma wle_trans a b c : wle a b -> wle b c -> wle a c.
+Proof.
+  intros H1 H2 i x Hx. destruct (H1 i x Hx) as [y [Hy Hxy]]. destruct (H2 i y Hy) as [z [Hz Hyz]].
+  exists z. split; [assumption|lia].
+Qed.
+
+Lemma wle_bump f w : wle w (bump f w).
+Proof.
+  induction w as [|[j c0] w IH]; intros i c Hin; [contradiction Hin|]. cbn [bump].
+  destruct (N.eqb_spec j f) as [E|E].
+  - destruct Hin as [Hin|Hin].
+    + inversion Hin; subst. exists (c + 1). split; [left; reflexivity|lia].
+    + exists c. split; [right; assumption|lia].
+  - destruct Hin as [Hin|Hin].
+    + exists c. split; [left; assumption|lia].
+    + destruct (IH i c Hin) as [c' [H1 H2]]. exists c'. split; [right; assumption|assumption].
+Qed.
+
+Lemma wle_notify1 s : wle (wakes s) (wakes (notify1 s)).
+Proof.
+  unfold notify1. destruct (1 <=? notified_count (lst s)); [apply wle_refl|].
+  destruct (notify_first (lst s)) as [l' [f|]]; cbn [wakes]; [apply wle_bump|apply wle_refl].
+Qed.
+
+Lemma wle_drop_opt lo s : wle (wakes s) (wakes (drop_opt lo s)).
+Proof.
+  destruct lo as [id|]; [|apply wle_refl]. cbn [drop_opt]. rewrite drop_listener_eq.
+  destruct (find (fun e => fst e =? id) (lst s)) as [[k [| |]]|]; try apply wle_refl.
+  eapply wle_trans; [|apply wle_notify1]. apply wle_refl.
+Qed.
+
+Lemma wle_poll i s : wle (wakes s) (wakes (snd (poll_fut i s))).
+Proof.
+  unfold poll_fut. destruct (fut_listener i (futs s)) as [lo|]; [|apply wle_refl].
+  destruct (0 <? permits s); cbn [snd].
+  - eapply wle_trans; [|apply (wle_drop_opt lo)]. apply wle_refl.
+  - destruct lo as [id|]; [|apply wle_refl].
+    destruct (find (fun e => fst e =? id) (lst s)) as [[k [| |]]|]; apply wle_refl.
+Qed.
+
+Lemma wle_step st o : wle (wakes (fst st)) (wakes (fst (tstep st o))).
+Proof.
+  destruct st as [s n]. destruct o as [|i|i|i]; cbn [tstep fst snd].
+  - unfold new_fut; cbn [wakes]. intros i c H. exists c. split; [right; assumption|lia].
+  - apply wle_poll.
+  - unfold drop_token. destruct (existsb (N.eqb i) (live s)); [|apply wle_refl].
+    eapply wle_trans; [|apply wle_notify1]. apply wle_refl.
+  - unfold drop_fut. destruct (fut_listener i (futs s)) as [lo|]; [|apply wle_refl].
+    eapply wle_trans; [|apply (wle_drop_opt lo)]. apply wle_refl.
+Qed.
+
+Lemma C13_wakes_monotone : C13_wakes_monotone_stmt.
+Proof.
+  unfold C13_wakes_monotone_stmt. intros maxc ops o i c. cbv zeta. apply wle_step.
+Qed.
+
+Print Assumptions C13_bound.
+Print Assumptions C13_immediate.
+Print Assumptions C13_not_stranded.
+Print Assumptions C13_wakes_monotone.
+Print Assumptions C13_listeners_owned.
+Print Assumptions C14_wg_inv.
+Print Assumptions C14_ready_iff_done.
+Print Assumptions C14_no_lost_wakeup.
